@@ -8,20 +8,33 @@ every answer equals the exact tensor of the state the object is in NOW.
 kind "grain"  one ImageD11.grain.grain object g, one reference grain object g0, at most one
               finite_strain.DeformationGradientTensor object D at a time:
     new / set_ubi     g = grain(ubi) / g.set_ubi(ubi)           ubi = L0.U0b^T.S.R^T
-    newref / reorient g0 = grain(L0.ur^T) / g0.set_ubi(L0.ur^T)
-    ask               g.eps_grain(_matrix) | g.eps_sample(_matrix) (reference = cell | g0, m)
-    dgt               D = DeformationGradientTensor(g | ubi, g0 | ub0)
+    newref / reorient g0 = grain(k.L0.ur^T) / g0.set_ubi(k.L0.ur^T)      (another orientation and / or cell scale; a
+                      new reference grain may come with a ref_unitcell of its own: field rd)
+    decorate who k    g.ref_unitcell | g0.ref_unitcell = unitcell(cell of k.L0)   (also at `new`: field gd)
+    touch who what    read g|g0 .unitcell .B .U .UB .mt .rmt / set .name .translation .npks
+    ask               g.eps_grain(_matrix) | g.eps_sample(_matrix) (reference = cell of k.L0 | g0, m)
+    dgt               D = DeformationGradientTensor(g | ubi, g0 | ub0)       (ub0 = B0/k for a cell reference)
     dask / dread      D.finite_strain_ref|lab(m) / D.F, D.U, D.VRS
-  expectation: F = R.S.Q, Q = U0b (cell) or U0b.ur^T (grain): ref = Q^T.E(S).Q, lab = R.E(S).R^T from
-  python Fractions (the `ans` TLC printed is cross-checked exactly when present).
+  expectation: seen from the reference k.L0 the grain has the stretch S/k (c10_exact.rescale):
+  F = R.(S/k).Q, Q = U0b (cell) or U0b.ur^T (grain): ref = Q^T.E(S/k).Q, lab = R.E(S/k).R^T from
+  python Fractions (the `ans` TLC printed is cross-checked exactly when present).  What the objects CARRY
+  (ref_unitcell, names, translations, filled caches) is no argument of a request and occurs nowhere in it.
   A LIFTED history keeps the operations and replaces the states by deformations of machine Spec that share one
-  reference (triclinic cells, Pythagorean orientations, twentieths) and the reference orientations by other
-  exact rotations: the model is covariant in them (the law only says "current state").
+  reference (triclinic cells, Pythagorean orientations, twentieths), the reference orientations by other
+  exact rotations and the cell scales 11/10, 9/10 by 501/500, 499/500 (a refined d-zero next to the nominal
+  cell): the model is covariant in them (the law only says "current state, reference given").
 
 kind "map"    one ImageD11.sinograms.tensor_map.TensorMap object:
-    newmap            TensorMap(maps={UBI, phase_ids}, phases=dict in the insertion order `pd`)
+    newmap            TensorMap(maps={UBI, phase_ids [, dzero_unitcell if dzx]}, phases=dict in the insertion order `pd`)
     read f            T.eps_sample | eps_crystal | eps_hydro | eps_devia
     assign way ver    T.UBI = x | T["UBI"] = x | T.add_map("UBI", x)
+    setdz way         T["dzero_unitcell"] = x | T.add_map("dzero_unitcell", x)    (only while no strain map is cached)
+    touch what        read T.U | B | UB | mt | unitcell | euler | dzero_unitcell
+  reference of a voxel: the cell of its phase id in the dictionary, unless an explicit dzero_unitcell map was
+  handed over (`dzs` of a read = "maps").  In a history with an explicit map the dictionary holds NOMINAL cells
+  (the true cell of the group times k_g, k_g = 501/500, 499/500, 1003/1000 or 1) and the explicit map the true
+  cells: a read relative to the explicit map expects the tensors of S, one relative to the dictionary those of
+  S/k_g.
   binding: version v of the UBI map = another exact deformation in every voxel (same reference cell per
   voxel: phase_ids never change); cell group i gets the phase id pd[i]; masked voxels (id -1, NaN UBI), orphan
   voxels (valid UBI, id without reference: NaN strains expected), voxels whose UBI is NaN in one version only.
@@ -49,6 +62,21 @@ def sc(a):
     return [[[int(x * den) for x in row] for row in a], den]
 
 
+def frk(k):
+    """scale <<n, d>> of the specification -> Fraction"""
+    return Fr(int(k[0]), int(k[1]))
+
+
+def dec(k):
+    """decoration field of the specification: [] (nothing carried) or a scale"""
+    return None if not k else frk(k)
+
+
+LIFT_SCALE = {Fr(11, 10): Fr(501, 500), Fr(9, 10): Fr(499, 500)}
+GTOUCH = ("unitcell", "B", "U", "UB", "mt", "rmt", "name", "translation", "npks")
+MTOUCH = ("U", "B", "UB", "mt", "unitcell", "euler", "dzero_unitcell")
+
+
 # ------------------------------------------------------------------------------------------------
 # kind "grain"
 
@@ -65,29 +93,50 @@ class GrainHistory(object):
         self.ops = []
         cur = None
         ur = self.U0b
+        rs = Fr(1)
         snap = None
         for o in h:
             op = o["op"]
             if op in ("new", "set_ubi"):
                 cur = X.ExactState(self.L0, self.U0b, X.fm(o["S"]), X.fm(o["R"]))
-                self.ops.append((op, cur))
+                self.ops.append((op, cur, dec(o.get("gd")) if op == "new" else None,
+                                 dec(o.get("rd")) if op == "new" else None))
             elif op in ("newref", "reorient"):
                 ur = X.fm(o["U0r"])
-                if X.fconj(ur, X.fI()) != X.fI() or X.fdet(ur) != 1:
+                rs = frk(o.get("k", [1, 1]))
+                if X.fconj(ur, X.fI()) != X.fI() or X.fdet(ur) != 1 or rs <= 0:
                     raise X.OracleMismatch("reference orientation is not a rotation")
-                self.ops.append((op, ur))
+                if op == "reorient" and o.get("rd"):
+                    raise X.OracleMismatch("set_ubi on the reference grain cannot attach a ref_unitcell")
+                self.ops.append((op, ur, rs, dec(o.get("rd"))))
+            elif op == "decorate":
+                if o["who"] not in ("g", "g0"):
+                    raise common.MachineryError("decorate: unknown object %r" % (o["who"],))
+                self.ops.append((op, o["who"], frk(o["k"])))
+            elif op == "touch":
+                if o["who"] not in ("g", "g0") or o["what"] not in GTOUCH:
+                    raise common.MachineryError("touch: unknown object / attribute %r" % (o,))
+                self.ops.append((op, o["who"], o["what"]))
             elif op == "ask":
+                k = frk(o.get("k", [1, 1]))
+                if o["rk"] == "grain" and k != rs:
+                    raise X.OracleMismatch("a grain reference is asked with another scale than the reference grain has")
                 Q = self.U0b if o["rk"] == "cell" else X.fmm(self.U0b, X.ft(ur))
-                self._check(o, cur, Q, check_ans)
-                self.ops.append((op, int(o["m2"]), o["frame"], o["rk"], cur, Q))
+                stk = X.rescale(cur, k)
+                self._check(o, stk, Q, check_ans)
+                self.ops.append((op, int(o["m2"]), o["frame"], o["rk"], stk, Q, k, dec(o.get("gd")), dec(o.get("rd"))))
             elif op == "dgt":
+                k = frk(o.get("k", [1, 1]))
+                if o["rk"] == "grain" and k != rs:
+                    raise X.OracleMismatch("a grain reference is handed over with another scale than the reference grain has")
                 Q = self.U0b if o["rk"] == "cell" else X.fmm(self.U0b, X.ft(ur))
                 if o["rk"] == "cell" and o["bk"] != "array":
                     raise common.MachineryError("a cell reference cannot be handed over as a grain")
-                snap = (cur, Q)
-                if check_ans and "F" in o and X.fm(o["F"]) != X.fmm(cur.F, Q):
-                    raise X.OracleMismatch("spec and harness disagree on F = R.S.Q")
-                self.ops.append((op, o["ak"], o["bk"], o["rk"], cur, Q, ur))
+                stk = X.rescale(cur, k)
+                snap = (stk, Q)
+                if check_ans and "F" in o and X.fm(o["F"]) != X.fmm(stk.F, Q):
+                    raise X.OracleMismatch("spec and harness disagree on F = R.(S/k).Q")
+                self.ops.append((op, o["ak"], o["bk"], o["rk"], stk, Q, ur, k, dec(o.get("gd")), dec(o.get("rd"))))
             elif op == "dask":
                 if snap is None:
                     raise common.MachineryError("dask without a DeformationGradientTensor")
@@ -137,8 +186,17 @@ def lift_grain_history(rec, group, rots, rng):
     rpool = list(rots)
     rng.shuffle(rpool)
     out = []
+
+    def lk(v):
+        if not v:
+            return v
+        f = LIFT_SCALE.get(frk(v), frk(v))
+        return [f.numerator, f.denominator]
     for o in h:
         o2 = dict((k, v) for k, v in o.items() if k not in ("ans", "Q", "F", "val"))
+        for fld in ("k", "gd", "rd"):
+            if fld in o2:
+                o2[fld] = lk(o2[fld])
         if o["op"] in ("new", "set_ubi"):
             key = json.dumps([o["S"], o["R"]])
             if key not in smap:
@@ -174,7 +232,21 @@ class GrainReplayer(object):
                       "ask_after_reference_reoriented_in_place": 0, "ask_after_new_reference_object": 0,
                       "dgt_objects": 0, "dgt_mixed_argument_kinds": 0, "dgt_asks": 0,
                       "dgt_objects_asked_for_2_or_more_m": 0, "dgt_asked_after_set_ubi_of_its_grain": 0,
-                      "dgt_reads": 0}
+                      "dgt_reads": 0,
+                      # the decorate dimension: what the objects carry is no argument of a request
+                      "decorations": 0, "touches": 0, "grains_decorated_at_construction": 0,
+                      "ask_cell_while_grain_carries_another_cell": 0,
+                      "ask_cell_while_grain_carries_another_cell_attached_before_first_request": 0,
+                      "ask_cell_while_grain_carries_another_cell_attached_after_a_request": 0,
+                      "ask_cell_while_grain_carries_the_same_cell": 0,
+                      "ask_cell_while_reference_grain_object_carries_a_cell": 0,
+                      "ask_grain_while_grain_carries_a_cell": 0,
+                      "ask_grain_while_reference_grain_carries_another_cell": 0,
+                      "ask_grain_while_reference_grain_carries_its_own_cell": 0,
+                      "dgt_from_grain_objects_carrying_another_cell": 0,
+                      "ask_reference_grain_of_another_cell_scale": 0,
+                      "ask_cell_of_another_scale_than_the_previous_request": 0,
+                      "ask_near_cell_half_percent": 0}
 
     def cmp(self, route, hi, oi, got, exp, extra):
         self.ncmp += 1
@@ -206,33 +278,81 @@ class GrainReplayer(object):
         cellB = X.f2np(X.finv(L0))
         asked_refs = {}          # reference key -> number of set_ubi seen when it was last asked
         nset = 0
+        nreq = 0                 # strain requests made so far on g (eps_* and DeformationGradientTensor(g, ..))
+        gdec_at = None           # nreq when the ref_unitcell now carried by g was attached
+        lastk = None
         reoriented = False
         newobj = False
-        self.stats["histories"] += 1
-        self.stats["lifted_histories"] += bool(H.rec.get("lifted"))
+        ndec = [0]
+        st_ = self.stats
+        st_["histories"] += 1
+        st_["lifted_histories"] += bool(H.rec.get("lifted"))
+
+        def cell_of(k):
+            return list(X.rescale(H.ops[0][1], k).cell)
+
+        def carried(k):
+            """the unitcell object an indexer / dataset loader attaches: the phase's cell, lattice symmetry or space
+            group number, a name"""
+            ndec[0] += 1
+            sym = ["P", 1, "F", 225, "I"][(hi + ndec[0]) % 5]
+            return self.unitcell.unitcell(cell_of(k), symmetry=sym, name="phase%d" % ((hi + ndec[0]) % 3))
+
         for oi, o in enumerate(H.ops):
             op = o[0]
             if op == "new":
                 st = o[1]
                 g = G(st.ubi_f.copy(), translation=[1.0, -2.0, 3.0])
                 g0 = G(X.f2np(X.fmm(L0, X.ft(H.U0b))))
-                cell = list(st.cell)
+                if o[2] is not None:
+                    g.ref_unitcell = carried(o[2])
+                    gdec_at = 0
+                    st_["grains_decorated_at_construction"] += 1
+                    st_["decorations"] += 1
+                if o[3] is not None:
+                    g0.ref_unitcell = carried(o[3])
+                    st_["decorations"] += 1
             elif op == "set_ubi":
                 g.set_ubi(o[1].ubi_f.copy())
                 nset += 1
             elif op == "newref":
-                g0 = G(X.f2np(X.fmm(L0, X.ft(o[1]))))
+                g0 = G(X.f2np(X.fscale(X.fmm(L0, X.ft(o[1])), o[2])))
+                if o[3] is not None:
+                    g0.ref_unitcell = carried(o[3])
+                    st_["decorations"] += 1
                 newobj, reoriented = True, False
             elif op == "reorient":
-                g0.set_ubi(X.f2np(X.fmm(L0, X.ft(o[1]))))
+                g0.set_ubi(X.f2np(X.fscale(X.fmm(L0, X.ft(o[1])), o[2])))
                 reoriented = True
+            elif op == "decorate":
+                _, who, k = o
+                (g if who == "g" else g0).ref_unitcell = carried(k)
+                if who == "g":
+                    gdec_at = nreq
+                st_["decorations"] += 1
+            elif op == "touch":
+                _, who, what = o
+                t = g if who == "g" else g0
+                if what == "name":
+                    t.name = "phase%d:%d" % (hi % 3, oi)
+                elif what == "translation":
+                    t.translation = np.array([0.1 * oi, -2.0, 3.5])
+                elif what == "npks":
+                    t.npks = 17 + oi
+                else:
+                    getattr(t, what)
+                st_["touches"] += 1
             elif op == "ask":
-                _, m2, frame, rk, st, Q = o
+                _, m2, frame, rk, st, Q, k, gd, rd = o
                 m = 0.5 * m2
                 exp = expected_answer(st, Q, m2, frame)
                 if self.perturb == "hist_state" and nset:
-                    exp = expected_answer(H.ops[0][1], Q, m2, frame)     # the state before set_ubi
+                    exp = expected_answer(X.rescale(H.ops[0][1], k), Q, m2, frame)     # the state before set_ubi
+                if self.perturb == "hist_carried" and rk == "cell" and gd is not None and gd != k:
+                    # what a request answered from the CARRIED cell would give
+                    exp = expected_answer(X.rescale(st, gd / k), Q, m2, frame)
                 if rk == "cell":
+                    cell = cell_of(k)
                     refarg = [cell, np.array(cell), tuple(cell)][oi % 3]
                 else:
                     refarg = g0
@@ -244,30 +364,53 @@ class GrainReplayer(object):
                 got = fn(refarg, m)
                 if use6:
                     exp = X.e6(exp)
-                self.cmp("history: %s(%s)" % (name, rk), hi, oi, got, exp, {"m": m, "frame": frame, "rk": rk})
-                self.stats["asks"] += 1
-                self.stats["asks_m0"] += (m2 == 0)
-                key = (rk, str(Q))              # same reference matrix B as an earlier question
+                self.cmp("history: %s(%s)" % (name, rk), hi, oi, got, exp,
+                         {"m": m, "frame": frame, "rk": rk, "reference_scale": str(k),
+                          "grain_carries": None if gd is None else str(gd),
+                          "reference_grain_carries": None if rd is None else str(rd)})
+                st_["asks"] += 1
+                st_["asks_m0"] += (m2 == 0)
+                key = (rk, str(Q), k)              # same reference matrix B as an earlier question
                 if key in asked_refs and asked_refs[key] < nset:
-                    self.stats["ask_again_after_set_ubi_same_reference"] += 1
+                    st_["ask_again_after_set_ubi_same_reference"] += 1
                 asked_refs[key] = nset
                 if rk == "grain":
-                    self.stats["ask_after_reference_reoriented_in_place"] += reoriented
-                    self.stats["ask_after_new_reference_object"] += newobj
+                    st_["ask_after_reference_reoriented_in_place"] += reoriented
+                    st_["ask_after_new_reference_object"] += newobj
                     reoriented = newobj = False
+                    st_["ask_grain_while_grain_carries_a_cell"] += (gd is not None)
+                    st_["ask_grain_while_reference_grain_carries_another_cell"] += (rd is not None and rd != k)
+                    st_["ask_grain_while_reference_grain_carries_its_own_cell"] += (rd is not None and rd == k)
+                    st_["ask_reference_grain_of_another_cell_scale"] += (k != 1)
+                else:
+                    if gd is not None and gd != k:
+                        st_["ask_cell_while_grain_carries_another_cell"] += 1
+                        if gdec_at == 0:
+                            st_["ask_cell_while_grain_carries_another_cell_attached_before_first_request"] += 1
+                        else:
+                            st_["ask_cell_while_grain_carries_another_cell_attached_after_a_request"] += 1
+                    st_["ask_cell_while_grain_carries_the_same_cell"] += (gd is not None and gd == k)
+                    st_["ask_cell_while_reference_grain_object_carries_a_cell"] += (rd is not None)
+                    st_["ask_cell_of_another_scale_than_the_previous_request"] += (lastk is not None and lastk != k)
+                    st_["ask_near_cell_half_percent"] += (k != 1 and abs(k - 1) < Fr(1, 200))
+                lastk = k
+                nreq += 1
             elif op == "dgt":
-                _, ak, bk, rk, st, Q, ur = o
+                _, ak, bk, rk, st, Q, ur, k, gd, rd = o
                 a = g if ak == "grain" else g.ubi.copy()
                 if bk == "grain":
                     b = g0
                 elif rk == "grain":
-                    b = X.f2np(X.fmm(ur, X.finv(L0)))
+                    b = X.f2np(X.fscale(X.fmm(ur, X.finv(L0)), 1 / k))
                 else:
-                    b = cellB.copy()
+                    b = cellB / float(k)
                 D = self.fs.DeformationGradientTensor(a, b)
                 dinfo = {"ms": set(), "nset": nset, "counted": False, "late": False}
-                self.stats["dgt_objects"] += 1
-                self.stats["dgt_mixed_argument_kinds"] += (ak != bk)
+                st_["dgt_objects"] += 1
+                st_["dgt_mixed_argument_kinds"] += (ak != bk)
+                st_["dgt_from_grain_objects_carrying_another_cell"] += bool(
+                    (ak == "grain" and gd is not None and gd != k) or (bk == "grain" and rd is not None and rd != k))
+                nreq += (ak == "grain")
             elif op == "dask":
                 _, m2, frame, st, Q = o
                 m = 0.5 * m2
@@ -275,19 +418,19 @@ class GrainReplayer(object):
                 got = D.finite_strain_ref(m) if frame == "ref" else D.finite_strain_lab(m)
                 self.cmp("history: DeformationGradientTensor.finite_strain_%s" % frame, hi, oi, got, exp,
                          {"m": m, "frame": frame})
-                self.stats["dgt_asks"] += 1
+                st_["dgt_asks"] += 1
                 dinfo["ms"].add(m2)
                 if len(dinfo["ms"]) >= 2 and not dinfo["counted"]:
                     dinfo["counted"] = True
-                    self.stats["dgt_objects_asked_for_2_or_more_m"] += 1
+                    st_["dgt_objects_asked_for_2_or_more_m"] += 1
                 if nset > dinfo["nset"] and not dinfo["late"]:
                     dinfo["late"] = True
-                    self.stats["dgt_asked_after_set_ubi_of_its_grain"] += 1
+                    st_["dgt_asked_after_set_ubi_of_its_grain"] += 1
             elif op == "dread":
                 _, field, st, Q = o
                 Qf = X.f2np(Q)
                 RQ = np.dot(st.Rf, Qf)
-                self.stats["dgt_reads"] += 1
+                st_["dgt_reads"] += 1
                 if field == "F":
                     self.cmp("history: DeformationGradientTensor.F", hi, oi, D.F, np.dot(st.Ff, Qf), {})
                 elif field == "U":
@@ -326,6 +469,10 @@ class MapBinding(object):
         self.pd = [int(p) for p in h[0]["pd"]]
         dz = [int(x) for x in h[0]["dz"]]
         self.nver = nver
+        # an explicit dzero_unitcell map is handed over somewhere in this history: the phases dictionary then holds
+        # nominal cells (true cell of the group times a scale), the explicit map the true ones
+        self.explicit = bool(h[0].get("dzx")) or any(o["op"] == "setdz" for o in h)
+        self.scales = [Fr(1)] * len(self.pd)
         if bind is not None:
             self._from_json(bind)
             return
@@ -364,9 +511,16 @@ class MapBinding(object):
         self.shape = (nz, ny, nx)
         self.vox = vox
         self.cells = [list(groups[ci][0].cell) for ci in chosen]
+        if self.explicit:
+            pool = [Fr(501, 500), Fr(499, 500), Fr(1003, 1000), Fr(1)]
+            self.scales = [pool[0] if gi == 0 else rng.choice(pool) for gi in range(ng)]
+            rng.shuffle(self.scales)
+            if all(k == 1 for k in self.scales):
+                self.scales[0] = pool[1]
 
     def to_json(self):
         return {"shape": list(self.shape), "cells": self.cells, "nver": self.nver,
+                "scales": [[k.numerator, k.denominator] for k in self.scales],
                 "voxels": [{"pid": p, "group": g, "states": [None if s is None else s.describe() for s in sts]}
                            for p, g, sts in self.vox]}
 
@@ -374,6 +528,7 @@ class MapBinding(object):
         self.shape = tuple(b["shape"])
         self.cells = b["cells"]
         self.nver = b["nver"]
+        self.scales = [frk(k) for k in b.get("scales", [[1, 1]] * len(self.cells))]
         self.vox = [[v["pid"], v["group"], [None if s is None else X.ExactState.from_description(s) for s in v["states"]]]
                     for v in b["voxels"]]
 
@@ -389,12 +544,30 @@ class MapBinding(object):
     def phase_ids(self):
         return np.array([p for p, _, _ in self.vox], int).reshape(self.shape)
 
-    def base(self, frame, v):
+    def nominal_cell(self, gi):
+        """cell of group gi in the phases dictionary: lengths times the group's scale, angles kept"""
+        c = list(self.cells[gi])
+        k = float(self.scales[gi])
+        return [c[0] * k, c[1] * k, c[2] * k, c[3], c[4], c[5]]
+
+    def dzmap(self):
+        """the explicit dzero_unitcell map: the TRUE reference cell of every voxel that has one"""
+        a = np.full((len(self.vox), 6), np.nan)
+        for j, (_, g, _) in enumerate(self.vox):
+            if g is not None:
+                a[j] = self.cells[g]
+        return a.reshape(self.shape + (6,))
+
+    def base(self, frame, v, dzs="maps"):
+        """dzs = "maps": relative to the true cells (the explicit map, or a dictionary that holds them);
+        "phases": relative to the cells of the dictionary (S/k_g where the group's nominal cell is scaled)"""
         n = len(self.vox)
         a = np.full((n, 3, 3), np.nan)
         for j, (_, g, sts) in enumerate(self.vox):
             s = sts[v - 1]
             if s is not None and g is not None:
+                if dzs == "phases":
+                    s = X.rescale(s, self.scales[g])
                 a[j] = s.lab(0.5) if frame == "s" else s.ref(0.5, s.U0)
         return a
 
@@ -406,22 +579,22 @@ class MapBinding(object):
                 a[j] = sts[v - 1].map_U()
         return a
 
-    def value(self, t):
-        """numeric map (n,3,3) of a tag"""
+    def value(self, t, dzs="maps"):
+        """numeric map (n,3,3) of a tag, the reference cells taken from `dzs`"""
         if t[0] == "ubi":
-            return self.base(t[1], int(t[2]))
+            return self.base(t[1], int(t[2]), dzs)
         if t[0] == "rot":
-            inner = self.value(t[2])
+            inner = self.value(t[2], dzs)
             U = self.Umap(int(t[3]))
             if t[1] == "s":
                 return np.einsum("nij,njk,nlk->nil", U, inner, U)
             return np.einsum("nji,njk,nkl->nil", U, inner, U)
         if t[0] == "hyd":
-            inner = self.value(t[1])
+            inner = self.value(t[1], dzs)
             tr = (inner[:, 0, 0] + inner[:, 1, 1] + inner[:, 2, 2]) / 3.0
             return tr[:, None, None] * np.eye(3)
         if t[0] == "dev":
-            return self.value(t[1]) - self.value(t[2])
+            return self.value(t[1], dzs) - self.value(t[2], dzs)
         raise common.MachineryError("unknown tag %r" % (t,))
 
 
@@ -434,7 +607,12 @@ class MapReplayer(object):
         self.stats = {"histories": 0, "reads": 0, "reads_after_assignment_of_a_cached_map": 0,
                       "reads_derived_by_rotation": 0, "assign_setter": 0, "assign_item": 0, "assign_add_map": 0,
                       "dict_not_0_to_n_in_order": 0, "dict_multi_phase": 0, "nz_above_1": 0,
-                      "orphan_voxels": 0, "masked_voxels": 0, "voxels_nan_in_one_version": 0, "voxels": 0}
+                      "orphan_voxels": 0, "masked_voxels": 0, "voxels_nan_in_one_version": 0, "voxels": 0,
+                      # the decorate dimension: the phases dictionary next to an explicitly given reference map
+                      "touches": 0, "explicit_dzero_map_at_construction": 0, "explicit_dzero_map_set_by_item": 0,
+                      "explicit_dzero_map_set_by_add_map": 0, "explicit_dzero_map_set_after_a_read": 0,
+                      "reads_relative_to_explicit_map_with_other_cells_in_phases": 0,
+                      "reads_relative_to_nominal_phase_cells": 0}
 
     def replay(self, hi, B):
         """an exception of the code under test is a failure of that history, not of the harness"""
@@ -452,8 +630,15 @@ class MapReplayer(object):
         h = B.rec["hist"]
         phases = {}
         for i, p in enumerate(B.pd):                         # insertion order = pd
-            phases[p] = self.unitcell.unitcell(list(B.cells[i]))
+            phases[p] = self.unitcell.unitcell(B.nominal_cell(i), symmetry=["P", 1, "F", 194][(hi + i) % 4],
+                                               name="phase%d" % p)
+        maps0 = {"UBI": B.ubi(1), "phase_ids": B.phase_ids()}
+        if h[0].get("dzx"):
+            maps0["dzero_unitcell"] = B.dzmap()
+        nominal = any(k != 1 for k in B.scales)
+        nreads = 0
         st = self.stats
+        st["explicit_dzero_map_at_construction"] += bool(h[0].get("dzx"))
         st["histories"] += 1
         st["dict_not_0_to_n_in_order"] += (B.pd != list(range(len(B.pd))))
         st["dict_multi_phase"] += (len(B.pd) > 1)
@@ -464,9 +649,23 @@ class MapReplayer(object):
         st["voxels_nan_in_one_version"] += sum(1 for p, g, s in B.vox if p >= 0 and any(x is None for x in s))
         sink = io.StringIO()
         with contextlib.redirect_stdout(sink):
-            T = tm.TensorMap(maps={"UBI": B.ubi(1), "phase_ids": B.phase_ids()}, phases=phases)
+            T = tm.TensorMap(maps=maps0, phases=phases)
             for oi, o in enumerate(h):
                 if o["op"] == "newmap":
+                    continue
+                if o["op"] == "setdz":
+                    if o["way"] == "item":
+                        T["dzero_unitcell"] = B.dzmap()
+                    else:
+                        T.add_map("dzero_unitcell", B.dzmap())
+                    st["explicit_dzero_map_set_by_" + o["way"]] += 1
+                    st["explicit_dzero_map_set_after_a_read"] += (nreads > 0)
+                    continue
+                if o["op"] == "touch":
+                    if o["what"] not in MTOUCH:
+                        raise common.MachineryError("touch: unknown map %r" % (o["what"],))
+                    getattr(T, o["what"])
+                    st["touches"] += 1
                     continue
                 if o["op"] == "assign":
                     arr = B.ubi(int(o["ver"]))
@@ -480,6 +679,10 @@ class MapReplayer(object):
                     continue
                 name = MAPNAME[o["f"]]
                 got = np.array(getattr(T, name), float)
+                dzs = o.get("dzs", "maps")
+                nreads += 1
+                st["reads_relative_to_explicit_map_with_other_cells_in_phases"] += (dzs == "maps" and nominal)
+                st["reads_relative_to_nominal_phase_cells"] += (dzs == "phases" and nominal)
                 self.ncmp += 1
                 st["reads"] += 1
                 st["reads_after_assignment_of_a_cached_map"] += (o["asis"] != o["exp"])
@@ -489,19 +692,22 @@ class MapReplayer(object):
                                           {"got_shape": list(got.shape), "expected_shape": list(B.shape + (3, 3))}))
                     continue
                 got = got.reshape(-1, 3, 3)
-                exp = B.value(o["exp"])
+                exp = B.value(o["exp"], dzs)
                 if self.perturb == "map_version" and int(o["cur"]) > 1:
-                    exp = B.value(json.loads(json.dumps(o["exp"]).replace(str(o["cur"]), "1")))
+                    exp = B.value(json.loads(json.dumps(o["exp"]).replace(str(o["cur"]), "1")), dzs)
+                if self.perturb == "map_reference" and nominal:
+                    exp = B.value(o["exp"], "phases" if dzs == "maps" else "maps")
                 bad = [j for j in range(len(B.vox)) if not X.close(got[j], exp[j])]
                 if not bad:
                     continue
                 stale = False
                 if o["asis"] != o["exp"]:
-                    old = B.value(o["asis"])
+                    old = B.value(o["asis"], dzs)
                     stale = all(X.close(got[j], old[j]) for j in range(len(B.vox)))
                 j = bad[0]
                 self.failures.append(("history: TensorMap.%s" % name, hi, oi,
                                       {"stale": stale, "voxel": j, "failing_voxels": len(bad), "pid": B.vox[j][0],
+                                       "reference_from": dzs,
                                        "exp_tag": o["exp"], "asis_tag": o["asis"],
                                        "got": got[j].tolist(), "expected": exp[j].tolist()}))
 
